@@ -239,6 +239,7 @@ struct RunCfg {
     int      fill{0};      // 0 garbage, 1 0xFF, 2 zero
     uint64_t heap_seed{1};
     uint64_t step_budget{200000000ULL};
+    bool     soft_budget{false}; // past the budget the run is given up (counted), not reported as a hang
 };
 
 // utf / text helpers shared by worlds (plain code, no Qentem)
